@@ -180,6 +180,24 @@ struct EncRun {
     check(got == N, "decode", "sample-count", fmt("submitted %lld samples per channel, packet-level decode returned %lld", (long long)N, (long long)got), facts);
     for (auto &c : pcm) check((int64_t)c.size() == got, "decode", "channels-differ-in-length", "", facts);
     g_stats.inc("probe.conserve_packet_level");
+    // consumer 1b: the other legitimate loop at the packet level -- submit the block first, and only when that is refused because output is
+    // still pending, drain and submit the same block again; a refused call has to be a no-op
+    { vorbis_info vi; vorbis_comment vc; vorbis_dsp_state vd; vorbis_block vb; vorbis_info_init(&vi); vorbis_comment_init(&vc); bool okh = true;
+      for (int i = 0; i < 3; i++) { ogg_packet op = pkt_to_op(eo.hdr[(size_t)i]); if (vorbis_synthesis_headerin(&vi, &vc, &op)) okh = false; }
+      if (okh && vorbis_synthesis_init(&vd, &vi) == 0) { vorbis_block_init(&vd, &vb); int64_t got2 = 0; Prng pr(sigr.seed ^ 0x51); bool same = true; long refused = 0;
+        auto drain = [&](bool all) { float **out; int n; while ((n = vorbis_synthesis_pcmout(&vd, &out)) > 0) { int take = all ? n : std::max(1, (int)pr.below((uint64_t)n + 1));
+            for (int c = 0; c < vi.channels && same; c++) if (got2 + take > (int64_t)pcm[(size_t)c].size() || memcmp(out[c], pcm[(size_t)c].data() + got2, (size_t)take * sizeof(float))) same = false;
+            vorbis_synthesis_read(&vd, take); got2 += take; if (!all) break; } };
+        for (auto &p : eo.audio) { ogg_packet op = pkt_to_op(p); if (vorbis_synthesis(&vb, &op)) continue;
+          int br = vorbis_synthesis_blockin(&vd, &vb); if (br == OV_EINVAL) { refused++; drain(true); br = vorbis_synthesis_blockin(&vd, &vb); }
+          check(br == 0, "decode", "blockin-failed-after-drain", fmt("ret=%d", br), facts);
+          if (pr.chance(0.5)) drain(pr.chance(0.5)); }   // sometimes leave output pending so that the next submission is refused
+        drain(true);
+        check(got2 == N, "decode", "sample-count", fmt("submitted %lld samples per channel, the submit-first decode loop returned %lld (%ld refused submissions)", (long long)N, (long long)got2, refused), facts);
+        check(same, "decode", "submit-first-loop-differs", "samples differ from the drain-first decode of the same packets", facts);
+        if (refused) g_stats.inc("probe.conserve_blockin_refused_then_retried");
+        vorbis_block_clear(&vb); vorbis_dsp_clear(&vd); }
+      vorbis_comment_clear(&vc); vorbis_info_clear(&vi); }
     // consumers 2 and 3: vorbisfile over SimFile, seekable and streaming
     const Rec *mx = plan.first("mux"); MuxPolicy mp; if (mx) { mp.policy = (int)mx->i("pol", 0); mp.k = (int)mx->i("k", 4); mp.serial = mx->i("serial", 4242); }
     auto l = std::make_shared<Link>(); l->ok = true; l->hdr = eo.hdr; l->audio = eo.audio; l->bs0 = eo.bs0; l->bs1 = eo.bs1; l->len = got; l->r.ch = es.ch; l->r.rate = es.rate;
